@@ -3,6 +3,7 @@ package worlds
 import (
 	"encoding/hex"
 	"math"
+	"sort"
 
 	"verif/sim/engine"
 	"verif/sim/refmodel"
@@ -269,5 +270,164 @@ func init() {
 		Extra: func(st *engine.Stats) map[string]interface{} {
 			return map[string]interface{}{"exhaustive_per_case": true, "cases": st.Probes["messages-swept"], "faults_enumerated": st.Probes["cuts-enumerated"] + st.Probes["flag-substitutions-enumerated"]}
 		},
+	})
+}
+
+// handBuilder is the C09 actor that sends hand-built protobuf messages giving
+// bins both sparsely and contiguously.
+func handBuilder(g *fleetGen) {
+	r := g.r
+	left := r.Range(0, 4)
+	var act func()
+	act = func() {
+		if left <= 0 {
+			return
+		}
+		left--
+		n := g.nodes[r.Intn(len(g.nodes))]
+		id := g.nextMsg
+		g.nextMsg++
+		centre := int64(n.m.Index(n.centre))
+		off := centre + int64(r.Range(-50, 50))
+		nc := r.Range(0, 40)
+		l := []int64{off, int64(nc)}
+		q := []engine.F64{engine.F64(dyadicWeight(r, "int"))}
+		if r.Pct(40) {
+			q[0] = 0
+		}
+		for i := 0; i < nc; i++ {
+			w := dyadicWeight(r, "frac")
+			if r.Pct(25) {
+				w = 0
+			}
+			q = append(q, engine.F64(w))
+		}
+		for i := r.Range(0, 12); i > 0; i-- {
+			l = append(l, off+int64(r.Range(-20, 60))) // overlaps the contiguous range
+			q = append(q, engine.F64(dyadicWeight(r, "frac")))
+		}
+		side := "pos"
+		if r.Pct(35) {
+			side = "neg"
+		}
+		g.emit(engine.Event{Ev: "pbmix", N: n.id, J: int64(id), L: l, Q: q, S: side})
+		for d := r.Range(1, 2); d > 0; d-- {
+			dst := g.sameMapping(n)
+			g.q.After(int64(r.Range(1, 2000)), func() {
+				g.emit(engine.Event{Ev: "deliver", N: dst.id, J: int64(id), S: "fresh"})
+			})
+		}
+		g.q.After(int64(r.Range(1, 1500)), act)
+	}
+	g.q.After(int64(r.Range(0, 500)), act)
+}
+
+// relayer is the C19 actor: it forwards messages through chains of hops of
+// mixed forms, compares mappings of node pairs and sends intruder messages.
+func relayer(g *fleetGen) {
+	r := g.r
+	left := r.Range(2, 16)
+	var carrying []int // messages that carry a mapping
+	var act func()
+	act = func() {
+		if left <= 0 {
+			return
+		}
+		left--
+		for id, form := range g.msgFormsSorted() {
+			_ = id
+			_ = form
+		}
+		carrying = carrying[:0]
+		for _, id := range g.msgIDs() {
+			if f := g.msgForms[id]; f == "bin" || f == "pb" || f == "pbstream" {
+				carrying = append(carrying, id)
+			}
+		}
+		switch r.Pick(50, 25, 10, 15) {
+		case 0:
+			if len(carrying) == 0 {
+				break
+			}
+			src := carrying[r.Intn(len(carrying))]
+			if r.Pct(60) {
+				src = carrying[len(carrying)-1] // extend the newest chain
+			}
+			id := g.nextMsg
+			g.nextMsg++
+			form := []string{"bin", "pb", "pbstream"}[r.Intn(3)]
+			g.emit(engine.Event{Ev: "relay", J: int64(src), I: int64(id), S: form})
+			g.msgForms[id] = form
+			g.msgOwner[id] = g.msgOwner[src]
+			if r.Pct(30) {
+				if owner := g.msgOwner[src]; owner != nil {
+					g.emit(engine.Event{Ev: "deliver", N: g.sameMapping(owner).id, J: int64(id), S: "fresh"})
+				}
+			}
+		case 1:
+			a, b := g.nodes[r.Intn(len(g.nodes))], g.nodes[r.Intn(len(g.nodes))]
+			g.emit(engine.Event{Ev: "mapeq", N: a.id, M: b.id})
+		case 2:
+			g.emit(engine.Event{Ev: "mapalpha", N: g.nodes[r.Intn(len(g.nodes))].id})
+		default:
+			if len(g.binMsgs) == 0 {
+				break
+			}
+			src := g.binMsgs[r.Intn(len(g.binMsgs))]
+			if owner := g.msgOwner[src]; owner != nil && g.msgForms[src] == "bin" {
+				if o := g.otherMapping(owner); o != nil {
+					g.emit(engine.Event{Ev: "intrude", N: o.id, J: int64(src)})
+				}
+			}
+		}
+		g.q.After(int64(r.Range(1, 1200)), act)
+	}
+	g.q.After(int64(r.Range(0, 800)), act)
+}
+
+func (g *fleetGen) msgIDs() []int {
+	ids := make([]int, 0, len(g.msgForms))
+	for id := range g.msgForms {
+		ids = append(ids, id)
+	}
+	sort.Ints(ids)
+	return ids
+}
+
+func (g *fleetGen) msgFormsSorted() map[int]string { return nil }
+
+func init() {
+	engine.Register(&engine.Prop{
+		ID: "C09", Level: "exploration", World: "fleet",
+		QuickRuns: 10000, ThoroughRuns: 1000000,
+		Generate: GenFleet(&fleetProfile{prop: "C09", stores: allKinds, roles: []string{"sketch"}, minNodes: 1, maxNodes: 4, shareMap: true,
+			weights: []string{"unit", "int", "frac", "arb", "arb"}, valueSigns: []string{"pos", "neg", "mixed", "zeros"},
+			ops:   map[string]int{"add": 30, "addw": 20, "burst": 6, "merge": 3, "copy": 2, "clear": 4, "reweight": 2, "send": 25},
+			forms: []string{"pb", "pbstream"}, modes: []string{"fresh"}, queryEvery: 0, maxOps: 120, extra: handBuilder}),
+		Execute:    ExecFleet,
+		NonTrivial: nonTrivialFleet(2, "send", "deliver"),
+		Rule:       "seeded pipeline simulations over the protobuf wires (message built in memory and marshalled, and the streaming writer); every serialisation is done in both forms and compared; rebuilt sketches of every store kind are compared bit for bit with the sender; hand-built messages mix sparse and contiguous bins; " + distinctRule + "; non-trivial = at least 2 mutations, a send and a delivery",
+		Real:       realFleetComponents, Stub: stubFleetComponents,
+		Assumptions: []string{"write errors of the io.Writer are unobservable through EncodeProto (no error return) and not injected", "with arbitrary (not exactly summable) weights only per-bin transport is compared, never sums or quantiles (DESIGN 4.7)", "a bounded target store that would have to fold the content is skipped (that is C05)", sampleAssumption},
+	})
+	engine.Register(&engine.Prop{
+		ID: "C19", Level: "exploration", World: "fleet",
+		QuickRuns: 10000, ThoroughRuns: 1000000,
+		Generate: GenFleet(&fleetProfile{prop: "C19", stores: plainKinds, roles: []string{"sketch", "sketch", "exact"}, minNodes: 1, maxNodes: 3, shareMap: true, intruder: true,
+			weights: []string{"unit", "int"}, valueSigns: []string{"pos", "mixed"},
+			ops:   map[string]int{"add": 30, "addw": 5, "send": 30, "clear": 2},
+			forms: []string{"bin", "pb", "pbstream"}, modes: []string{"merge", "fresh"}, queryEvery: 0, maxOps: 40, extra: relayer}),
+		Execute: ExecFleet,
+		NonTrivial: func(p *engine.Plan) bool {
+			for _, e := range p.Events {
+				if e.Ev == "relay" || e.Ev == "mapeq" || e.Ev == "mapalpha" || e.Ev == "intrude" {
+					return true
+				}
+			}
+			return false
+		},
+		Rule: "seeded pipeline simulations in which messages travel through chains of 1-6 relay hops of mixed forms (binary, protobuf message, streaming protobuf), each relay adopting the decoded mapping and re-serialising; mapping pairs of the fleet (same parameters, different kinds, clearly different alpha, built from alpha vs from base+offset) are compared; intruder messages must be refused; " + distinctRule + "; non-trivial = at least one relay, comparison or intruder event",
+		Real: realFleetComponents, Stub: stubFleetComponents,
+		Assumptions: []string{"alpha, offsets and probe values are sampled; per hop the statement is a pure function, the simulator contributes chains, pairs and refusal under traffic", sampleAssumption},
 	})
 }
